@@ -109,6 +109,32 @@ example : (engineReplace exEnv exEs exNew exPre).2.isOk = true ∧
     ((engineReplace exEnv exEs exNew exPre).1.fs.view ["f", "a", "opt"]).map (·.2.kind) = some (.file "6e6577") ∧
     (engineReplace exEnv exEs exNew exPre).1.fs.view ["l"] = none := by decide
 
+/-- **… under whatever name**: on a live root where directory symlinks give one object several names (`resP` =
+location with its directory part resolved, `resF` = fully resolved; arbitrary functions here), nothing that remains
+in the remove set of a replace is a new entry: not literally, not as the same directory entry under another name,
+and not as the directory a new directory entry denotes. -/
+theorem replace_keeps_aliased (resP resF : Path → Path) (live new : List Entry) :
+    ∀ e ∈ removePlanOf resP resF live new, ∀ x ∈ new,
+      e.loc ≠ x.loc ∧ resP e.loc ≠ resP x.loc ∧ (x.isDir = true → resP e.loc ≠ resF x.loc) := by
+  intro e he x hx
+  have h1 := (List.mem_filter.mp he).1
+  have h2 := List.mem_filter.mp h1
+  have h3 := (List.mem_filter.mp h2.1).2
+  have h4 := h2.2
+  simp only [decide_eq_true_eq] at h3 h4
+  refine ⟨fun e0 => h3 (e0 ▸ List.mem_map_of_mem hx), fun e0 => h4 (e0 ▸ mem_keptNames_P hx),
+    fun hd e0 => h4 (e0 ▸ mem_keptNames_F hx hd)⟩
+
+/-- on literal paths (no aliasing) this is the plan of `engineReplace` -/
+theorem removePlanOf_literal (fs : Fs) (old new : List Entry) :
+    removePlanOf id id (liveIntersect fs old) new = removePlan fs old new := by
+  unfold removePlanOf removePlan
+  rw [removeCsetOf_id]
+
+example : (removePlanOf (fun p => if p = ["d", "l"] then ["d", "t"] else p) id
+    [⟨["d", "t"], .dir, 0, 0, 0, 0⟩, ⟨["o"], .reg "" none, 0, 0, 0, 0⟩] [⟨["d", "l"], .dir, 0, 0, 0, 0⟩]).map (·.loc)
+    = [["o"]] := by decide
+
 /-- **The driver evaluates the specification itself** -/
 theorem unmerged_bounded_iff (pre : Fs) (es : List Entry) (fin : Fs) :
     (Unmerged pre es fin ∧ EmptiedDirsGone es fin) ↔ unmergedFailures pre es fin = [] :=
